@@ -546,7 +546,7 @@ Inductive behaviour :=
 Definition start_actions (b : behaviour) : list action :=
   match b with
   | BHealthy => [AStart; EDialOk; ISetupOk; ERegOk; ECfgOk]
-  | BUnreachable => [AStart; EDialFail]
+  | BUnreachable => [AStart; EDialFail; ISetupOk]  (* ISetupOk: only when no dial was needed (a connection was left in place) *)
   | BRefuse => [AStart; EDialOk; ISetupOk; ERegRefused]
   | BDropInReg => [AStart; EDialOk; ISetupOk; EConnLost]
   | BSilentReg => [AStart; EDialOk; ISetupOk; ETimeout]
@@ -559,10 +559,14 @@ Definition is_registering (s : state) : bool := match ph s with Registering => t
 
 (* one Start against a runtime end behaving as b: the environment events of b in order (events
    that cannot occur in the phase reached are skipped by [step]); a registration attempted on a
-   dead connection is noticed as a lost connection *)
+   dead connection is noticed as a lost connection; on a started stub Start fails at once *)
 Definition run_start (sw : switches) (s : state) (b : behaviour) : state :=
-  let s1 := run sw s (start_actions b) in
-  if is_registering s1 && negb (conn_live (sconn s1)) then step sw s1 EConnLost else s1.
+  match ph s with
+  | Configured => step sw s AStart   (* "stub already started": nothing reaches the runtime end *)
+  | _ =>
+      let s1 := run sw s (start_actions b) in
+      if is_registering s1 && negb (conn_live (sconn s1)) then step sw s1 EConnLost else s1
+  end.
 
 Inductive op :=
 | OStart (b : behaviour)      (* Start, then wait until everything under way has happened *)
